@@ -21,6 +21,7 @@
 #define VP_HAVE_EVENT_C
 #include "alloc.h"
 #include "event.c"
+#include "evmap.c"      /* included (not linked) so that evmap_make_space is reachable */
 #include "evbase.h"
 
 enum { K_TIMER, K_TIMER_P, K_IO, K_IO_P, K_SIG_P };
@@ -216,19 +217,19 @@ static void op_add(int k, int tvi, int depth)
 {
 	int refuse = 0, r;
 	const struct timeval *tv = tvi < 0 ? NULL : &TV[tvi + (persist(k) ? 1 : 0)];
-	if (is_io(k) && !m[k].inserted) {
-		refuse = vp_bool();
-		vp_be_fail_add = refuse; vp_sig_fail = refuse;
-	}
-	r = event_add(evp[k], tv);
-	vp_be_fail_add = 0; vp_sig_fail = 0;
-	/* branch on the outcome; the rest of the history runs inside the branch */
+	if (is_io(k) && !m[k].inserted) refuse = vp_bool();
+	/* branch on the back end's answer BEFORE the call, so that inside each branch the library
+	 * runs with a concrete answer and nothing is merged; the rest of the history runs inside */
 	if (refuse) {
+		vp_be_fail_add = 1; vp_sig_fail = 1;
+		r = event_add(evp[k], tv);
+		vp_be_fail_add = 0; vp_sig_fail = 0;
 		VP_ASSERT(r == -1, "C02: event_add must fail when the back end refuses the registration");
 		VP_ASSERT(m_add(k, tv, 0, 1) == -1, "C02: model");
 		n_refused++;
 		observe(); run(depth + 1);
 	} else {
+		r = event_add(evp[k], tv);
 		VP_ASSERT(r == 0, "C02: event_add must succeed");
 		m_add(k, tv, 0, 0);
 		if (tv) n_leaves_add_tv++;
@@ -242,10 +243,8 @@ static void op_del(int k, int depth)
 	m_del(k);
 	observe(); run(depth + 1);
 }
-static void op_active(int k, int depth)
+static void op_active(int k, short res, short ncalls, int depth)
 {
-	short res = (short)(vp_u8() & (EV_READ | EV_WRITE | EV_TIMEOUT));
-	short ncalls = (short)vp_range(1, 2);
 	event_active(evp[k], res, ncalls);
 	m_activate(k, res, ncalls);
 	observe(); run(depth + 1);
@@ -291,14 +290,29 @@ static void run(int depth)
 		VP_WITNESS("history complete");
 		return;
 	}
-	op = (int)vp_range(0, 8);
+#ifndef C02_OPMAX
+#define C02_OPMAX 8
+#endif
+#ifndef C02_OPMIN
+#define C02_OPMIN 0
+#endif
+	op = (int)vp_range(C02_OPMIN, C02_OPMAX);
 	k = vp_bool();
 	switch (op) {
 	case 0: PER_EVENT(op_add(K, -1, depth)); break;
 	case 1: PER_EVENT(op_add(K, 0, depth)); break;
 	case 2: PER_EVENT(op_add(K, 1, depth)); break;
 	case 3: PER_EVENT(op_del(K, depth)); break;
-	case 4: PER_EVENT(op_active(K, depth)); break;
+	case 4: {
+		/* result flags and ncalls are choices too: each branch runs the library with concrete
+		 * values (a symbolic ev_res makes event_add's "active because of a timeout?" test symbolic) */
+		int w = (int)vp_range(0, 3), n2 = vp_bool();
+		if (w == 0) { if (n2) PER_EVENT(op_active(K, EV_READ, 2, depth)); else PER_EVENT(op_active(K, EV_READ, 1, depth)); }
+		else if (w == 1) PER_EVENT(op_active(K, EV_TIMEOUT, 1, depth));
+		else if (w == 2) PER_EVENT(op_active(K, EV_READ | EV_WRITE | EV_TIMEOUT, 1, depth));
+		else PER_EVENT(op_active(K, 0, 1, depth));
+		break;
+	}
 	case 5: PER_EVENT(op_rmtimer(K, depth)); break;
 	case 6: if (vp_bool()) PER_EVENT(op_prio(K, 0, depth)); else PER_EVENT(op_prio(K, 1, depth)); break;
 	case 7: op_loop(0, depth); break;
@@ -324,6 +338,12 @@ void harness_history(void)
 		VP_ASSERT(event_assign(evp[k], base, fd, events, cb, evp[k]) == 0, "C02: event_assign");
 		m[k].events = events; m[k].pri = NPRI / 2;
 	}
+	/* the fd and signal tables are sized once, before the tree (their growth inside every
+	 * branch costs 20x in formula size); same call evmap_io_add_/evmap_signal_add_ would make */
+	k = evmap_make_space(&base->io, 8, sizeof(struct evmap_io *));
+	__CPROVER_assume(k == 0);
+	k = evmap_make_space(&base->sigmap, 12, sizeof(struct evmap_signal *));
+	__CPROVER_assume(k == 0);
 	observe();
 	run(0);
 }
